@@ -53,6 +53,7 @@ func e2eChild() {
 			judgeE2E(run, name, "A", res.A, res)
 			judgeE2E(run, name, "B", res.B, res)
 			run.Count("e2e_sessions", 1)
+			run.Count("e2e_source_packets_with_header_extension_and_padding", int64(res.ExtPadded))
 		}(s)
 	}
 	wg.Wait()
@@ -105,6 +106,9 @@ func judgeE2E(run *vk.Run, name, who string, rx []vmedia.Rx, res vmedia.Result) 
 		}
 		if _, ok := first[id]; !ok {
 			first[id] = p
+			if vmedia.ExtPadded(id) {
+				run.Count("e2e_received_intact_though_sent_with_extension_and_padding", 1)
+			}
 		}
 	}
 	ids := make([]int, 0, len(first))
@@ -165,6 +169,8 @@ func e2eTier(run *vk.Run) {
 	wg.Wait()
 	run.FloorCounter("e2e_streams_clean", int64(batches*sessions))
 	run.FloorCounter("e2e_frames_checked_after_a_withheld_frame", 1000)
+	run.FloorCounter("e2e_source_packets_with_header_extension_and_padding", 100)
+	run.FloorCounter("e2e_received_intact_though_sent_with_extension_and_padding", 100)
 	run.Assume("end-to-end tier: the set of frames a down track deliberately withheld is what its successful packetmap.Drop calls report through the verif trace point")
 	_ = vrtc.IDOf
 }
